@@ -69,7 +69,7 @@ def read_frames(comm, calls):
 
 
 class ScriptQueue:
-    """Stand-in for queue.Queue: get() hands out the scripted items; None = nothing arrives any more."""
+    """Stand-in for queue.Queue: get() hands out the scripted items; None is a scripted time-out."""
 
     def __init__(self, items):
         self.items = items
@@ -78,11 +78,9 @@ class ScriptQueue:
         if not self.items:
             raise queue.Empty
         x = self.items[0]
-        if x is None:
-            # the device is silent from here on (raised before any mutation: PyLite does not
-            # keep state changes made before an exception that is caught later)
-            raise queue.Empty
         self.items = self.items[1:]
+        if x is None:
+            raise queue.Empty      # a scripted time-out: consumed, then raised
         return x
 
     def put(self, x):
